@@ -8,7 +8,7 @@ from collections import deque
 from common import *  # noqa
 
 PROP = "C16"
-TABLES = ["Whitespace", "C16_CaseFold"]
+TABLES = ["Whitespace", "C16_CaseFold", "C16_Sre"]
 MODELS = [("c16", "Extract/ExC16.v", "run_C16")]
 
 ALPHA = ["a", "A", "b", "\n", "."]
@@ -379,7 +379,7 @@ class Sess:
     """One PromptSession whose KeyProcessor is driven directly (inside set_app,
     inside a running asyncio loop, never through prompt())."""
 
-    def __init__(self, vi, ic, history=None):
+    def __init__(self, vi, ic, history=None, ro=False):
         from prompt_toolkit.enums import EditingMode
         from prompt_toolkit.history import InMemoryHistory
         from prompt_toolkit.input.defaults import create_pipe_input
@@ -396,6 +396,10 @@ class Sess:
         self.buf = self.s.default_buffer
         self.ctrl = self.s.layout.current_control
         assert self.ctrl.buffer is self.buf
+        self.ro = bool(ro)
+        if ro:
+            from prompt_toolkit.filters import to_filter
+            self.buf.read_only = to_filter(True)
         self.seen = []
         orig = self.ctrl._create_get_processed_line_func
 
@@ -458,6 +462,10 @@ class Sess:
             seq = [(Keys.ControlH, "\x7f")]
         elif code == 7:
             seq = [(Keys.Escape, "\x1b")]
+        elif code in (8, 9) and getattr(self, "ro", False):
+            # emacs: the repeat count is a numeric argument (Escape digit)
+            ch = "n" if code == 8 else "N"
+            seq = ([(Keys.Escape, "\x1b"), (str(k[1]), str(k[1]))] if k[1] != 1 else []) + [(ch, ch)]
         elif code in (8, 9):
             ch = "n" if code == 8 else "N"
             seq = ([(str(k[1]), str(k[1]))] if k[1] != 1 else []) + [(ch, ch)]
@@ -659,18 +667,26 @@ def enabled(vi, searching, k):
     if searching:
         if c in (8, 9, 19, 20):
             return False
-        if vi and c in (7, 12, 13):
+        if vi == 1 and c in (7, 12, 13):
             return False
         return True
-    if vi:
+    if vi == 1:
         return c in (8, 9, 10, 11, 19, 20)
+    if vi == "ro":       # emacs mode, read-only main buffer (key_step_ro)
+        return c in (1, 2, 8, 9, 10, 11)
     return c in (1, 2, 3, 6, 10, 11)
 
 
 def impl_session_case(sess, case, patience=5):
     """-> (canonical list per key, trace for the oracle)"""
     from prompt_toolkit.application.current import set_app
-    _, mode, wl_s, wi, cur, ic, keys = case
+    if case[0] == 7:
+        _, wl_s, wi, cur, ic, keys = case
+        mode = "ro"
+        if not getattr(sess, "ro", False):
+            raise RuntimeError("a read-only case needs a read-only session")
+    else:
+        _, mode, wl_s, wi, cur, ic, keys = case
     wl = [unS(x) for x in wl_s]
     out, trace = [], []
     with set_app(sess.app):
@@ -702,6 +718,10 @@ def impl_session_case(sess, case, patience=5):
 
 
 def oracle_session(case, trace):
+    ro = False
+    if case[0] == 7:        # emacs, read-only main buffer: "/" "?" start a search, n / N repeat it
+        ro = True
+        case = [3, 0] + list(case[1:])
     _, mode, wl_s, wi0, cur0, ic, keys = case
     nav_since_start = False       # C-r/C-s/Up/Down pressed while searching, since this search was started
     for prev, k, obs in trace:
@@ -719,7 +739,7 @@ def oracle_session(case, trace):
             if not main_same:
                 return ("typing %s in the search field moved the real cursor or changed the text" % kn,
                         {"key": kn, "family": "typing"})
-        elif not psearch and k[0] in (1, 2, 10, 11) and (mode or k[0] in (1, 2)):
+        elif not psearch and k[0] in (1, 2, 10, 11) and (mode or ro or k[0] in (1, 2)):
             nav_since_start = False
             if not main_same:
                 return ("starting a search moved the real cursor", {"key": kn, "family": "start"})
@@ -772,6 +792,255 @@ def oracle_session(case, trace):
                     b = bads[-1]
                     return ("key %s: %s" % (kn, b[0]), {"key": kn, "family": b[1], "dir": d})
     return None
+
+
+# --------------------------------------------------------------------------
+# kinds 5 and 6: what `re` does with re.escape(needle) and with one character
+# under IGNORECASE (Model/C16_Regex.v)
+
+OUTSIDE_ESCAPES = "0123456789xuUN"     # numeric / hex / unicode escapes: not modelled (re.escape never makes them)
+
+
+def sre_parse_literals(p):
+    """-> list of code points when the sre parser reads `p` as a plain literal
+    sequence, else None (also None for the escapes outside the model)."""
+    import warnings
+    from re import _parser
+    i = 0
+    while i < len(p):
+        if p[i] == "\\":
+            if i + 1 < len(p) and p[i + 1] in OUTSIDE_ESCAPES:
+                return None
+            i += 2
+        elif p[i] in "[(":
+            return None     # sets (a one-element set is a LITERAL for the parser), groups / flags / comments: not modelled
+        else:
+            i += 1
+    try:
+        with warnings.catch_warnings():
+            warnings.simplefilter("ignore")
+            items = list(_parser.parse(p))
+    except Hang:
+        raise
+    except Exception:  # noqa  (re.error, RecursionError, ...)
+        return None
+    out = []
+    for op, av in items:
+        if str(op) != "LITERAL":
+            return None
+        out.append(int(av))
+    return out
+
+
+def impl_regex_case(case):
+    s = unS(case[1])
+    esc = re.escape(s)
+    a = sre_parse_literals(s)
+    b = sre_parse_literals(esc)
+    return [S(esc), [] if a is None else [a], [] if b is None else [b]]
+
+
+def oracle_regex(case, res):
+    """The needle is searched literally: the escaped pattern is the needle's own
+    characters as literals, and it matches the needle itself."""
+    s = unS(case[1])
+    if res[2] != [[ord(c) for c in s]]:
+        return ("re.escape(%r) = %r is not read back by the regex parser as the literal characters of the needle (got %r)" % (
+            s, unS(res[0]), res[2]), {"family": "escape", "op": "re.escape"})
+    try:
+        if re.fullmatch(re.escape(s), s) is None:
+            return ("re.escape(%r) does not match the needle itself" % s, {"family": "escape", "op": "re.escape"})
+    except re.error as e:
+        return ("re.escape(%r) does not compile: %s" % (s, e), {"family": "escape", "op": "re.escape"})
+    return None
+
+
+def impl_fold_case(case):
+    _, p, t = case
+    return [1 if re.fullmatch(re.escape(chr(p)), chr(t), re.IGNORECASE) is not None else 0,
+            1 if re.fullmatch(re.escape(chr(t)), chr(p), re.IGNORECASE) is not None else 0]
+
+
+def oracle_fold(case, res):
+    _, p, t = case
+    if p < 128 and t < 128:
+        want = 1 if chr(p).lower() == chr(t).lower() else 0
+        if res != [want, want]:
+            return ("ignore-case comparison of %r and %r answers %r" % (chr(p), chr(t), res), {"family": "casefold", "op": "re.IGNORECASE"})
+    if p == t and res != [1, 1]:
+        return ("%r does not match itself under IGNORECASE" % chr(p), {"family": "casefold", "op": "re.IGNORECASE"})
+    return None
+
+
+REGEX_ALPHA = sorted(set("()[]{}?*+-|^$\\.&~# \t\n\r\v\f" + "anbdswAZ01,xuN" + "\u00e9\u017f"))
+
+
+def gen_regex_cases(chk, dist):
+    rng = chk.rng
+    thorough = chk.tier == "thorough"
+    cases = [[5, S("")]]
+    for n in (1, 2):
+        for t in itertools.product(REGEX_ALPHA, repeat=n):
+            cases.append([5, S("".join(t))])
+    k3 = 20000 if thorough else 1500
+    for _ in range(k3):
+        cases.append([5, S("".join(rng.choice(REGEX_ALPHA) for _ in range(3)))])
+    for _ in range(6000 if thorough else 600):
+        cases.append([5, S("".join(rng.choice(REGEX_ALPHA) for _ in range(rng.randint(4, 9))))])
+    # patterns that ARE escaped needles followed by one more character (a trailing backslash, an unescaped special)
+    for _ in range(3000 if thorough else 300):
+        nd = "".join(rng.choice(REGEX_ALPHA) for _ in range(rng.randint(0, 4)))
+        cases.append([5, S(re.escape(nd) + rng.choice(REGEX_ALPHA))])
+    dist["regex_escape_parse"] = len(cases)
+    return cases
+
+
+def case_variants(c):
+    out = {c}
+    for f in (str.lower, str.upper, str.title, str.casefold, str.swapcase):
+        for x in list(out):
+            y = f(x)
+            if len(y) == 1:
+                out.add(y)
+    return out
+
+
+def cased_chars():
+    import _sre
+    return [c for c in range(0x110000) if _sre.unicode_iscased(c)]
+
+
+def gen_fold_cases(chk, dist):
+    rng = chk.rng
+    thorough = chk.tier == "thorough"
+    cases = []
+    for p in range(128):
+        for t in range(128):
+            if thorough or rng.random() < 0.2:
+                cases.append([6, p, t])
+    cased = cased_chars()
+    ps = cased if thorough else rng.sample(cased, 700)
+    for p in ps:
+        vs = sorted(case_variants(chr(p)))
+        for v in vs:
+            cases.append([6, p, ord(v)])
+            for v2 in sorted(case_variants(v)):
+                cases.append([6, p, ord(v2)])
+        cases.append([6, p, rng.choice(cased)])
+        cases.append([6, p, rng.randrange(0x110000)])
+        cases.append([6, rng.randrange(0x110000), p])
+    # the characters sre treats specially (re._casefix._EXTRA_CASES), among each other
+    try:
+        from re import _casefix
+        ex = sorted(set(_casefix._EXTRA_CASES) | set(x for v in _casefix._EXTRA_CASES.values() for x in v))
+    except Exception:  # noqa
+        ex = []
+    for p in ex:
+        for t in ex:
+            if thorough or rng.random() < 0.15:
+                cases.append([6, p, t])
+    for _ in range(5000 if thorough else 500):
+        cases.append([6, rng.randrange(0x110000), rng.randrange(0x110000)])
+    dist["ignorecase_char_pairs"] = len(cases)
+    return cases
+
+
+def gen_unicode_buffer_cases(chk, dist):
+    """Buffer cases whose alphabet is a random cased character of ANY script with its case variants."""
+    rng = chk.rng
+    thorough = chk.tier == "thorough"
+    cased = cased_chars()
+    cases = []
+    for _ in range(4000 if thorough else 300):
+        al = set()
+        for _j in range(rng.choice([1, 1, 2])):
+            al |= case_variants(chr(rng.choice(cased)))
+        al = sorted(al) + rng.choice([[], ["."], ["a"], ["\n"]])
+        n = rng.choice([1, 2, 3])
+        h = ["".join(rng.choice(al) for _ in range(rng.choice([0, 1, 2, 3, 4]))) for _ in range(n)]
+        wi = rng.randrange(n)
+        cur = rng.randint(0, len(h[wi]))
+        nd = "".join(rng.choice(al) for _ in range(rng.choice([1, 1, 2])))
+        cases.append([1, [S(x) for x in h], wi, cur, S(nd), rng.choice([1, 1, 1, 0])])
+    dist["random_history_any_cased_script"] = len(cases)
+    return cases
+
+
+def gen_ro_cases(chk, dist):
+    """emacs sessions on a read-only main buffer: / ? C-r C-s start, n / N (with Escape-digit counts) repeat."""
+    rng = chk.rng
+    thorough = chk.tier == "thorough"
+    cases = []
+    for _ in range(3000 if thorough else 400):
+        if rng.random() < 0.5:
+            h = rng.choice(SESSION_HISTORIES)
+        else:
+            h = ["".join(rng.choice(["a", "a", "A", "b", ".", "\n"]) for _ in range(rng.randint(0, 4)))
+                 for _ in range(rng.randint(1, 5))]
+        wi = rng.choice([len(h) - 1, rng.randrange(len(h))])
+        cur = rng.randint(0, len(h[wi]))
+        keys, searching = [], False
+        for _k in range(rng.randint(3, 12)):
+            if searching:
+                k = rng.choice([[1], [2], [3], [3], [3], [4], [4], [4], [5], [6], [7], [12], [13], [14], [15], [18]])
+                if k[0] == 3:
+                    k = [3, ord(rng.choice(["a", "a", "A", "b", ".", "n", "N", "/"]))]
+                if k[0] in (4, 5, 7):
+                    searching = False
+            else:
+                k = rng.choice([[1], [2], [10], [10], [11], [8], [8], [8], [9], [9]])
+                if k[0] in (8, 9):
+                    k = [k[0], rng.choice([1, 1, 1, 2, 3, 0])]
+                else:
+                    searching = True
+            keys.append(k)
+        cases.append([7, [S(x) for x in h], wi, cur, rng.randint(0, 1), keys])
+    # systematic: start (/ ? C-r C-s), type one needle, Enter, then every n / N sequence of length <= 3
+    # (the landing of Enter is a match start: n must leave it, N must turn around)
+    nseq = 0
+    for h in SESSION_HISTORIES:
+        for st in ([10], [11], [1], [2]):
+            for nd in ("a", "b"):
+                for n in (1, 2, 3):
+                    for tail in itertools.product([8, 9], repeat=n):
+                        if not thorough and rng.random() > 0.3:
+                            continue
+                        wi = rng.randrange(len(h))
+                        cur = rng.randint(0, len(h[wi]))
+                        keys = [list(st), [3, ord(nd)], [4]] + [[t, rng.choice([1, 1, 1, 2])] for t in tail]
+                        cases.append([7, [S(x) for x in h], wi, cur, rng.randint(0, 1), keys])
+                        nseq += 1
+    dist["emacs_read_only_sessions"] = len(cases) - nseq
+    dist["emacs_read_only_search_then_n_N"] = nseq
+    return cases
+
+
+def check_sre_tables(chk):
+    """The tables behind Model/C16_Regex.v (regenerated by gen/gen_t_c16.py) against `re` itself over ALL of
+    Unicode: thorough = every cased pattern character + 20000 uncased ones, quick = a random sample."""
+    sys.path.insert(0, os.path.join(VERIF, "gen"))
+    try:
+        import gen_t_c16
+        T = gen_t_c16.sre_tables()
+    except SystemExit:
+        chk.violation("tie", "gen/gen_t_c16.py could not read CPython's re tables", {"kind": "sre-tables"}, {}, no_input=True)
+        return
+    finally:
+        sys.path.pop(0)
+    rng = chk.rng
+    thorough = chk.tier == "thorough"
+    cased = set(T["cased"])
+    ps = sorted(cased) if thorough else rng.sample(sorted(cased), 150)
+    unc = []
+    while len(unc) < (20000 if thorough else 400):
+        c = rng.randrange(0x110000)
+        if c not in cased:
+            unc.append(c)
+    bad = gen_t_c16.check_sre_rel(T, ps + unc, range(0x110000))
+    chk.coverage["sre_tables_vs_re_all_unicode"] = {"cased_patterns": len(ps), "uncased_patterns": len(unc), "texts": 0x110000}
+    if bad:
+        chk.violation("tie", "re.IGNORECASE and the relation defined by _sre.unicode_tolower/unicode_iscased/_EXTRA_CASES "
+                      "differ on pattern U+%04X text U+%04X" % bad, {"kind": "sre-tables"}, {"pattern": bad[0], "text": bad[1]}, no_input=True)
 
 
 # --------------------------------------------------------------------------
@@ -982,7 +1251,8 @@ def gen_session_cases(chk, dist):
 
 MALFORMED = [[], [1], [1, [], 0, 0, [], 0], [1, [[97]], 1, 0, [97], 0], [1, [[97]], 0, 2, [97], 0],
              [1, [[97]], 0, -1, [97], 0], [1, [[97]], 0, 0, [97], 2], [2, [97], 2, [97], 0, 1],
-             [3, 0, [[97]], 0, 0, 0, [[99]]], [3, 2, [[97]], 0, 0, 0, []], [4], [1, [[[97]]], 0, 0, [97], 0]]
+             [3, 0, [[97]], 0, 0, 0, [[99]]], [3, 2, [[97]], 0, 0, 0, []], [4], [1, [[[97]]], 0, 0, [97], 0],
+             [5], [5, 3], [5, [[97]]], [6, -1, 5], [6, 1], [6, 5, -2], [7, [[97]], 0, 5, 0, []], [7, [[97]], 0, 0, 2, []], [7]]
 
 
 # --------------------------------------------------------------------------
@@ -1023,6 +1293,13 @@ def describe(c, a, m):
         return "two controls sharing one search field: A=%r index=%d cursor=%d B=%r index=%d cursor=%d ic=%d keys=%r" % (
             [unS(x) for x in c[1]], c[2], c[3], [unS(x) for x in c[4]], c[5], c[6], c[7],
             [("switch-focus" if k[0] == 21 else KEYNAMES[k[0]] + ("(%s)" % (chr(k[1]) if k[0] == 3 else k[1]) if len(k) > 1 else "")) for k in c[8]])
+    if c and c[0] == 5 and len(c) == 2:
+        return "pattern %r: re.escape / regex parser as literals: impl=%r model=%r" % (unS(c[1]), a, m)
+    if c and c[0] == 6 and len(c) == 3:
+        return "IGNORECASE: pattern char U+%04X vs text char U+%04X (and swapped): impl=%r model=%r" % (c[1], c[2], a, m)
+    if c and c[0] == 7 and len(c) == 6:
+        return "session mode=emacs read-only lines=%r index=%d cursor=%d ic=%d keys=%r" % (
+            [unS(x) for x in c[1]], c[2], c[3], c[4], [KEYNAMES[k[0]] + ("(%s)" % (chr(k[1]) if k[0] == 3 else k[1]) if len(k) > 1 else "") for k in c[5]])
     if c and c[0] == 3:
         return "session mode=%s lines=%r index=%d cursor=%d ic=%d keys=%r" % (
             "vi" if c[1] else "emacs", [unS(x) for x in c[2]], c[3], c[4], c[5], [KEYNAMES[k[0]] + ("(%s)" % (chr(k[1]) if k[0] == 3 else k[1]) if len(k) > 1 else "") for k in c[6]])
@@ -1051,6 +1328,15 @@ def tagger(c, a, m):
             if x != y:
                 return {"op": "session", "key": KEYNAMES.get(c[6][j][0], "?"), "mode": c[1]}
         return {"op": "session"}
+    if c[0] == 5:
+        return {"op": "re.escape"}
+    if c[0] == 6:
+        return {"op": "re.IGNORECASE"}
+    if c[0] == 7:
+        for j, (x, y) in enumerate(zip(a, m if isinstance(m, list) else [])):
+            if x != y:
+                return {"op": "session", "key": KEYNAMES.get(c[5][j][0], "?"), "mode": "emacs-read-only"}
+        return {"op": "session", "mode": "emacs-read-only"}
     return {"op": "malformed"}
 
 
@@ -1074,17 +1360,19 @@ async def run_sessions(chk, cases, results, traces, shared=None):
             finally:
                 for x in s2.values():
                     x.close()
+        def mk(key):
+            return Sess(0, key[1], ro=True) if key[0] == "ro" else Sess(key[0], key[1])
         for i, c in enumerate(cases):
-            key = (c[1], c[5])
+            key = ("ro", c[4]) if c[0] == 7 else (c[1], c[5])
             if key not in sessions:
-                sessions[key] = Sess(c[1], c[5])
+                sessions[key] = mk(key)
             out, trace = impl_session_case(sessions[key], c)
             if any(isinstance(o, int) and o == -98 for o in out):
                 # the 5 s wall-clock watchdog fired: on a loaded machine that can be a
                 # descheduled process, so the case is re-run once on a fresh session
                 # with a long watchdog; only a repeated hang is reported
                 sessions.pop(key).close()
-                sessions[key] = Sess(c[1], c[5])
+                sessions[key] = mk(key)
                 chk.note("watchdog fired on a session case; re-run with a 60 s watchdog")
                 out, trace = impl_session_case(sessions[key], c, patience=60)
             results.append(out)
@@ -1110,9 +1398,12 @@ def main(tier):
         chk.note("continuing with the previously built model binary to search for a failing input")
 
     dist = {}
-    bcases = gen_buffer_cases(chk, dist)
+    check_sre_tables(chk)
+    bcases = gen_buffer_cases(chk, dist) + gen_unicode_buffer_cases(chk, dist)
     dcases = gen_document_cases(chk, dist)
-    scases = gen_session_cases(chk, dist)
+    scases = gen_session_cases(chk, dist) + gen_ro_cases(chk, dist)
+    rcases = gen_regex_cases(chk, dist)
+    fcases = gen_fold_cases(chk, dist)
     corpus = load_corpus(PROP)
     cases, impl_results = [], []
     oracle_bad = set()
@@ -1124,13 +1415,16 @@ def main(tier):
                       {"case": sx_norm(c), "clause": clause, "observed": extra,
                        "how": "see harness/c16.py replay(): kind 1 = Buffer with these working lines/index/cursor, "
                               "_search/apply_search/get_search_position/document_for_search for every (direction, include_current_position, count); "
-                              "kind 2 = Document.find/find_backwards; kind 3 = keys fed to the KeyProcessor of a real PromptSession"})
+                              "kind 2 = Document.find/find_backwards; kind 3 = keys fed to the KeyProcessor of a real PromptSession "
+                              "(kind 7: the same with a read-only default buffer, emacs mode); kind 5 = re.escape + the regex parser on a pattern; "
+                              "kind 6 = one pattern character against one text character under re.IGNORECASE"})
 
     tagged = [(c[0] if c and isinstance(c[0], int) else 0, c) for c in corpus]
-    tagged += [(1, c) for c in bcases] + [(2, c) for c in dcases] + [(0, m) for m in MALFORMED]
-    corpus_sessions = [c for k, c in tagged if k == 3]
+    tagged += [(1, c) for c in bcases] + [(2, c) for c in dcases] + [(5, c) for c in rcases] + [(6, c) for c in fcases]
+    tagged += [(0, m) for m in MALFORMED]
+    corpus_sessions = [c for k, c in tagged if k in (3, 7)]
     for kind, c in tagged:
-        if kind in (3, 4):
+        if kind in (3, 4, 7):
             continue
         i = len(cases)
         cases.append(c)
@@ -1165,6 +1459,26 @@ def main(tier):
             if bad:
                 report(i, c, bad, out)
             chk.count_case(c, any(out))
+        elif kind == 5 and len(c) == 2:
+            try:
+                out = with_watchdog(lambda: impl_regex_case(c), 5)
+            except Exception as e:  # noqa
+                out = ["raise", type(e).__name__]
+            impl_results.append(out)
+            bad = oracle_regex(c, out) if not (out and out[0] == "raise") else ("re.escape / parser raised", {"family": "raise", "op": "re.escape"})
+            if bad:
+                report(i, c, bad, out)
+            chk.count_case(c, bool(out[0] != c[1]))
+        elif kind == 6 and len(c) == 3:
+            try:
+                out = impl_fold_case(c)
+            except Exception as e:  # noqa
+                out = ["raise", type(e).__name__]
+            impl_results.append(out)
+            bad = oracle_fold(c, out) if not (out and out[0] == "raise") else ("re raised", {"family": "raise", "op": "re.IGNORECASE"})
+            if bad:
+                report(i, c, bad, out)
+            chk.count_case(c, c[1] != c[2] and 1 in out)
         else:
             impl_results.append([-999])     # malformed: the model must answer bad_case, nothing is run
             chk.count_case(c, False)
@@ -1186,7 +1500,8 @@ def main(tier):
         i = base + j
         cases.append(c)
         impl_results.append(out)
-        moved = any(isinstance(o, list) and (o[0], o[1]) != (c[3], c[4]) for o in out)
+        start = (c[2], c[3]) if c[0] == 7 else (c[3], c[4])
+        moved = any(isinstance(o, list) and (o[0], o[1]) != start for o in out)
         chk.count_case(c, moved)
         bad = oracle_session(c, trace)
         if bad:
@@ -1229,7 +1544,8 @@ def main(tier):
         "(1) a Buffer with given working lines/index/cursor and a needle: _search, apply_search, get_search_position for both "
         "directions x include_current_position x counts -1..3, and document_for_search for both directions (20 queries + 2 per case); "
         "(2) Document.find / find_backwards incl. count; (3) key sequences (C-r C-s typing Enter C-g Backspace Escape Up Down Left Right Home End Delete, "
-        "Vi / ? n N * # with counts) fed to the KeyProcessor of a real PromptSession, state and displayed document observed after every key. "
+        "Vi / ? n N * # with counts; emacs on a read-only buffer: / ? n N with Escape-digit counts) fed to the KeyProcessor of a real PromptSession, state and displayed document observed after every key; "
+        "(5) a pattern string: re.escape, the sre parser's literal reading of it and of its escaped form; (6) one pattern character against one text character under re.IGNORECASE, both ways. "
         "Non-trivial = some search moved the position. Exhaustive strata are sampled in quick and complete in thorough "
         "(one entry of length <= 3 over %r x every cursor x %d needles x both case modes); distinct by hash of the whole case" % (ALPHA, len(needles())))
     chk.assumptions += [
@@ -1238,12 +1554,16 @@ def main(tier):
         "Document.find(count): the count-th occurrence counted with or without overlaps; preview = accept; typing / start / typing-only sessions move nothing); "
         "count=k all-or-nothing, counts below 1, get_search_position, non-overlapping counting in Document.find(count), abort after "
         "C-r/C-s and the state stored by */# are code semantics: proved about the model, reported through correspondence only",
-        "re.finditer(re.escape(s), t, flags) = leftmost non-overlapping literal occurrences, compared per character; "
-        "re.IGNORECASE = the per-character relation ceq (a Section variable in every theorem; the executable model uses the table "
-        "regenerated from CPython's re for ASCII letters + 19 irregular cased letters, gen/gen_t_c16.py)",
+        "assumed about CPython's re: the search loop of re.finditer (leftmost, non-overlapping matches, an empty match at every position) and that the C matcher "
+        "runs a sequence of one-character ops left to right. Modelled and tied (Model/C16_Regex.v, tables Gen/C16_Sre.v regenerated from the running CPython): "
+        "re.escape, the sre parser on patterns made of plain characters and two-character escapes (proved: it reads re.escape(needle) back as the needle, for every needle), "
+        "the IGNORECASE compilation of a literal and its one-character match (_sre.unicode_tolower / unicode_iscased / re._casefix._EXTRA_CASES; compared with re itself over "
+        "all of Unicode: every cased pattern character in thorough, a sample in quick). The parser model answers None for constructs outside it "
+        "(unescaped [ and (, escapes followed by a digit or x u U N); theorems stay parametric in the per-character relation ceq",
         "the search field is modelled as a buffer of its own (text + cursor: insert, Backspace, Delete, Left, Right, Home, End); its history (Up/Down in a Vi search field) is outside",
         "Vi * and #: the word under the cursor (Document.get_word_under_cursor, C02) is read off the real document and handed to the model as part of the key",
         "selection, events, validation, completion state and the search buffer's own history are outside the model",
+        "emacs read-only sessions: Buffer.read_only is set on the PromptSession's default buffer; n / N counts are typed as Escape digit",
         "sessions run with the KeyProcessor driven directly inside set_app under a running asyncio loop; "
         "working lines are set directly on the Buffer (history loading is checked separately through load_history_if_not_yet_loaded)"]
     return chk.finish()
@@ -1261,11 +1581,19 @@ def replay(data):
         out = impl_document_case(case)
         print(describe(case, out, "-"))
         bad = oracle_document(case, out)
-    elif case and case[0] == 3:
+    elif case and case[0] == 5:
+        out = impl_regex_case(case)
+        print(describe(case, out, "-"))
+        bad = oracle_regex(case, out)
+    elif case and case[0] == 6:
+        out = impl_fold_case(case)
+        print(describe(case, out, "-"))
+        bad = oracle_fold(case, out)
+    elif case and case[0] in (3, 7):
         res, tr = [], []
 
         async def go():
-            s = Sess(case[1], case[5])
+            s = Sess(0, case[4], ro=True) if case[0] == 7 else Sess(case[1], case[5])
             try:
                 o, t = impl_session_case(s, case)
                 res.append(o)
